@@ -22,6 +22,9 @@ R6  infeasible schedules raise before the context is completed; the 3000 ft
     offsets and their ceiling fall-backs have the documented shape.
 R7  accumulators: flight_time and ground_distance start at 0 and are only
     ever added to.
+R10 out-of-envelope states are refused rather than extrapolated or filled with
+    NaN: the evaluate path of the performance model interpolates only with
+    bounds-checked scipy interpn (C06-R2).
 R8  level-change altitude schedule ends exactly at the target altitude
     (algebraic: start + (n-1)·(end-start)/(n-1) ≡ end) and is called with the
     phase's own start/end altitudes.
@@ -520,5 +523,13 @@ def run(ctx):
     rule_buffers(ctx)
     rule_bookkeeping(ctx)
     rule_schedule(ctx)
+    # R10: a state outside the performance envelope is refused (the no-extrapolation rule of C06)
+    from .c06 import rule_no_extrapolation
+    sub = type(ctx)(ctx.prop, ctx.prog, ctx.tier)
+    rule_no_extrapolation(sub)
+    for o in sub.obligations:
+        o.rule = 'C02-R10'
+        ctx.obligations.append(o)
+    ctx.controls += sub.controls
     ctx.assumptions += ['monotonicity of time/distance and altitude values depend on table values (not decided)',
                         'np.resize keeps the leading elements of the resized buffer']
